@@ -340,7 +340,7 @@ func c17LoadCase(c *CaseCtx) *CaseResult {
 			}
 		}
 	case 1: // single-constraint corruption: must fail
-		kinds := []string{"concurrency -1", "concurrency -7", "queue_limit -1", "start_delay -1s", "delay with queue_limit 0", "dependency on missing task", "dependency on another pipeline's task", "unknown strategy", "duplicate name in another file", "unparsable yaml"}
+		kinds := []string{"concurrency -1", "concurrency -7", "queue_limit -1", "start_delay -1s", "delay with queue_limit 0", "dependency on missing task", "dependency on another pipeline's task", "unknown strategy", "duplicate name in another file", "unparsable yaml", "dependency with empty name", "dependency that is a YAML null", "start_delay -1s with queue_limit", "dependency on missing task beside valid ones", "concurrency -1 in a later pipeline of the file"}
 		kind := kinds[(c.Idx/3)%len(kinds)]
 		target := r.Intn(nFiles)
 		var victim string
@@ -397,6 +397,33 @@ func c17LoadCase(c *CaseCtx) *CaseResult {
 				}
 			case "unknown strategy":
 				pm["queue_strategy"] = "newest"
+			case "dependency with empty name":
+				for _, t := range pm["tasks"].(map[string]interface{}) {
+					t.(map[string]interface{})["depends_on"] = []string{""}
+					break
+				}
+			case "dependency that is a YAML null":
+				for _, t := range pm["tasks"].(map[string]interface{}) {
+					t.(map[string]interface{})["depends_on"] = []interface{}{nil}
+					break
+				}
+			case "start_delay -1s with queue_limit":
+				pm["start_delay"] = "-1s"
+				pm["queue_limit"] = 2
+			case "dependency on missing task beside valid ones":
+				var names []string
+				for n := range pm["tasks"].(map[string]interface{}) {
+					names = append(names, n)
+				}
+				sort.Strings(names)
+				last := pm["tasks"].(map[string]interface{})[names[len(names)-1]].(map[string]interface{})
+				deps := []string{}
+				for _, n := range names[:len(names)-1] {
+					deps = append(deps, n)
+				}
+				last["depends_on"] = append(deps, "no-such-task")
+			case "concurrency -1 in a later pipeline of the file":
+				tree["zzz_last_pipeline"] = map[string]interface{}{"concurrency": -1, "tasks": map[string]interface{}{"t": map[string]interface{}{"script": []string{"true"}}}}
 			}
 		}
 		if err := writeTree(root, files, rand.New(rand.NewSource(c.Seed+1)), order, corrupt); err != nil {
